@@ -188,6 +188,8 @@ def build_pep(spec):
             f.add_constraint(cons_objs[(b + 1, i)])
         for m in blk["psd"]:
             f.add_psd_matrix(build_matrix(m, P, X))
+    class_functions = []
+    pep._harness_class_functions = class_functions
     for c in spec.get("classes", []):
         import PEPit.functions as PF
         import PEPit.operators as PO
@@ -196,6 +198,7 @@ def build_pep(spec):
         g = pep.declare_function(cls, **kw)
         for i in c["pts"]:
             g.gradient(P[i])
+        class_functions.append(g)
     for d in spec.get("dups", []):
         if d[0] == "cons":
             obj = cons_objs[(d[1], d[2])]
@@ -206,6 +209,45 @@ def build_pep(spec):
         else:
             pep.add_psd_matrix(pep.list_of_psd[d[1]])      # the same PSDMatrix object once more
     return pep, P, X
+
+
+def gen_modifications(rng, spec):
+    """what is done to the model between two solves of the same PEP object: every op shifts the positions (hence the
+    position tags) of the constraints that survive"""
+    npts, nf = spec["np"], spec["nf"]
+    ops = []
+    for _ in range(rng.choice([1, 1, 2])):
+        kind = rng.choice(["metric", "cons", "psd", "fcons", "sample"])
+        if kind == "metric":
+            ops.append(["metric", gen_expr(rng, npts, nf)])
+        elif kind == "cons":
+            ops.append(["cons", gen_cons(rng, npts, nf)])
+        elif kind == "psd":
+            ops.append(["psd", gen_matrix(rng, npts, nf)])
+        elif kind == "fcons" or not spec.get("classes"):
+            ops.append(["fcons", gen_cons(rng, npts, nf)])
+        else:
+            ops.append(["sample", 0, rng.randrange(npts)])
+    return ops
+
+
+def apply_modifications(pep, P, X, ops):
+    from PEPit.functions import ConvexFunction
+    for op in ops:
+        if op[0] == "metric":
+            pep.set_performance_metric(build_expr(op[1], P, X))
+        elif op[0] == "cons":
+            pep.add_constraint(build_cons(op[1], P, X))
+        elif op[0] == "psd":
+            pep.add_psd_matrix(build_matrix(op[1], P, X))
+        elif op[0] == "fcons":
+            f = pep.declare_function(ConvexFunction)
+            f.add_constraint(build_cons(op[1], P, X))
+        elif op[0] == "sample":
+            g = pep._harness_class_functions[op[1]]
+            g.gradient((op[2] + 1) * 0.5 * P[op[2]] + P[0])       # one more sample of the class function
+        else:
+            raise ValueError(op)
 
 
 # ------------------------------------------------------------------------------------------ scripted solve
